@@ -35,75 +35,76 @@ CONST_FNS = {"from_f64", "one", "max_intensity", "full_rotation", "half_rotation
 # (function path suffix, rendered divisor) -> reason.  Confirmed by reading; one line each.
 TABLE = {
     # ---- blend
-    ("blend::blend::dodge_blend", "one() - src"): "arm reached only when src < 1 (previous arm returns for src >= 1): divisor > 0",
+    ("blend::blend::dodge_blend", "(+ one() - src)"): "arm reached only when src < 1 (previous arm returns for src >= 1): divisor > 0",
     ("blend::blend::burn_blend", "src"): "arm reached only when src > 0 (previous arm returns for src <= 0)",
     # ---- CAM16: viewing-condition parameters are positive for valid conditions (C16 checks their formulas); colour-dependent divisors below
     ("cam16::math::xyz_to_cam16", "from_scalar(parameters.a_w)"): "A_w > 0: achromatic response of the adopted white",
-    ("cam16::math::xyz_to_cam16", "r_a + g_a + from_f64(1.05) * b_a + from_f64(0.305)"): "CAM16 t denominator: compressed responses of a colour inside the gamut are > -0.1 each; +0.305 keeps it positive",
+    ("cam16::math::xyz_to_cam16", "(+ (b_a * from_f64(1.05)) + from_f64(0.305) + g_a + r_a)"): "CAM16 t denominator: compressed responses of a colour inside the gamut are > -0.1 each; +0.305 keeps it positive",
     ("cam16::math::calculate_brightness", "param_c"): "surround factor c in [0.525, 0.69]",
-    ("cam16::math::calculate_saturation", "param_a_w + from_f64(4.0)"): "A_w + 4 > 0",
+    ("cam16::math::calculate_saturation", "(+ from_f64(4.0) + param_a_w)"): "A_w + 4 > 0",
     ("cam16::math::non_black_cam16_to_xyz", "j_root"): "only called for non-black colours (cam16_to_xyz selects zero for J = 0 / Q = 0): J_root > 0",
     ("cam16::math::non_black_cam16_to_xyz", "from_scalar(parameters.z)"): "z = 1.48 + sqrt(n) > 0",
     ("cam16::math::non_black_cam16_to_xyz", "from_scalar(parameters.c)"): "surround factor c in [0.525, 0.69]",
     ("cam16::math::non_black_cam16_to_xyz", "from_scalar(parameters.n_bb)"): "N_bb = 0.725 n^-0.2 > 0",
-    ("cam16::math::non_black_cam16_to_xyz", "from_f64(23.0) * p_1 + t * (from_f64(11.0) * cos_h + from_f64(108.0) * sin_h)"): "CAM16 inverse step: 23 p_1 dominates for in-gamut chroma (p_1 ~ 3846 N_c N_cb e_t >= 2.7e3 e_t)",
-    ("cam16::math::prepare_parameters", "from_f64(5.0) * l_a + one()"): "5 L_A + 1 >= 1 for a non-negative adapting luminance",
-    ("cam16::math::prepare_parameters", "y_w"): "white point luminance > 0",
+    ("cam16::math::non_black_cam16_to_xyz", "(+ (((from_f64(5e4) / from_f64(13.0)) * e_t * from_scalar(parameters.n_c) * from_scalar(parameters.n_cb)) * from_f64(23.0)) + ((+ (cos_h * from_f64(11.0)) + (from_f64(108.0) * sin_h)) * t))"): "CAM16 inverse step: 23 p_1 dominates for in-gamut chroma (p_1 ~ 3846 N_c N_cb e_t >= 2.7e3 e_t)",
+    ("cam16::math::prepare_parameters", "(+ (from_f64(5.0) * parameters.adapting_luminance) + one())"): "5 L_A + 1 >= 1 for a non-negative adapting luminance",
+    ("cam16::math::prepare_parameters", "xyz_w.y"): "white point luminance > 0",
     ("cam16::math::prepare_parameters", "c_w"): "cone response of the white point > 0",
     ("cam16::math::prepare_parameters", "d_c"): "D_RGB component: lerp(1, Y_w/RGB_w, D) > 0",
     ("cam16::math::prepare_parameters", "f_l"): "F_L > 0 for L_A > 0",
     ("cam16::math::chroma_to_saturation", "j_root"): "called through ChromaticityType::into_cam16 only in the non-black arm of lazy_select",
     ("cam16::math::colorfulness_to_chroma", "param_f_l_4"): "F_L^(1/4) > 0",
-    ("cam16::math::brightness_to_j_root", "(from_f64(4.0) + param_a_w) * param_f_l_4"): "(4 + A_w) F_L^(1/4) > 0",
+    ("cam16::math::brightness_to_j_root", "((+ from_f64(4.0) + param_a_w) * param_f_l_4)"): "(4 + A_w) F_L^(1/4) > 0",
     ("cam16::math::saturation_to_alpha", "param_c"): "surround factor c in [0.525, 0.69]",
-    ("cam16::math::Adapt::<T>::run", "x + from_f64(27.13)"): "x = (F_L |c| / 100)^0.42 >= 0, so x + 27.13 >= 27.13",
-    ("cam16::math::Unadapt::<T>::run", "from_f64(400.0) - c_abs"): "|adapted response| < 400 for every finite forward result (400 x/(x+27.13) < 400)",
+    ("cam16::math::Adapt::<T>::run", "(+ from_f64(27.13) + x)"): "x = (F_L |c| / 100)^0.42 >= 0, so x + 27.13 >= 27.13",
+    ("cam16::math::Unadapt::<T>::run", "(- component.abs() + from_f64(400.0))"): "|adapted response| < 400 for every finite forward result (400 x/(x+27.13) < 400)",
     # ---- colour difference (CIEDE2000, WCAG)
-    ("color_difference::get_ciede2000_difference", "c_bar_pow_seven + twenty_five_pow_seven"): "C^7 + 25^7 >= 25^7",
-    ("color_difference::get_ciede2000_difference", "((l_bar - from_f64(50.0)) * (l_bar - from_f64(50.0)) + from_f64(20.0)).sqrt()"): "sqrt(20 + x^2) >= sqrt(20)",
-    ("color_difference::get_ciede2000_difference", "c_bar_prime_pow_seven + twenty_five_pow_seven"): "C'^7 + 25^7 >= 25^7",
-    ("color_difference::get_ciede2000_difference", "k_l * s_l"): "k_L = 1 and S_L = 1 + ... >= 1",
-    ("color_difference::get_ciede2000_difference", "k_c * s_c"): "k_C = 1 and S_C = 1 + 0.045 C' >= 1",
-    ("color_difference::get_ciede2000_difference", "k_h * s_h"): "k_H = 1; S_H = 1 + 0.015 C' T with T >= 1 - 0.17 - 0.24 - 0.32 - 0.20 = 0.07 > 0, so S_H >= 1",
-    ("color_difference::get_ciede2000_difference", "k_c * s_c * k_h * s_h"): "product of the two factors above, each >= 1",
-    ("color_difference::Wcag21RelativeContrast::relative_contrast", "from_f64(0.05) + min_luma"): "relative luminance >= 0, so min + 0.05 >= 0.05",
+    ("color_difference::get_ciede2000_difference", "(+ c_bar.powi(7) + from_f64(6103515625.0))"): "C^7 + 25^7 >= 25^7",
+    ("color_difference::get_ciede2000_difference", "(+ ((- from_f64(50.0) + l_bar) * (- from_f64(50.0) + l_bar)) + from_f64(20.0)).sqrt()"): "sqrt(20 + x^2) >= sqrt(20)",
+    ("color_difference::get_ciede2000_difference", "(+ c_bar_prime.powi(7) + from_f64(6103515625.0))"): "C'^7 + 25^7 >= 25^7",
+    ("color_difference::get_ciede2000_difference", "((+ (((- from_f64(50.0) + l_bar) * (- from_f64(50.0) + l_bar) * from_f64(0.015)) / (+ ((- from_f64(50.0) + l_bar) * (- from_f64(50.0) + l_bar)) + from_f64(20.0)).sqrt()) + one()) * one())"): "k_L = 1 and S_L = 1 + ... >= 1",
+    ("color_difference::get_ciede2000_difference", "((+ (c_bar_prime * from_f64(0.045)) + one()) * one())"): "k_C = 1 and S_C = 1 + 0.045 C' >= 1",
+    ("color_difference::get_ciede2000_difference", "((+ (c_bar_prime * from_f64(0.015) * t) + one()) * one())"): "k_H = 1; S_H = 1 + 0.015 C' T with T >= 1 - 0.17 - 0.24 - 0.32 - 0.20 = 0.07 > 0, so S_H >= 1",
+    ("color_difference::get_ciede2000_difference", "((+ (c_bar_prime * from_f64(0.015) * t) + one()) * (+ (c_bar_prime * from_f64(0.045)) + one()) * one() * one())"): "product of the two factors above, each >= 1",
+    ("color_difference::Wcag21RelativeContrast::relative_contrast", "(+ from_f64(0.05) + min_luma)"): "relative luminance >= 0, so min + 0.05 >= 0.05",
     # ---- hexcone forms
-    ("<hsl::Hsl<S, T> as FromColorUnclamped<rgb::rgb::Rgb<S, T>>>", "from_f64(2.0) - sum"): "scalar arm: taken when sum > 1 and max != min; sum = max + min < 2 unless max = min = 1 which the max != min test excludes",
-    ("<hsl::Hsl<S, T> as FromColorUnclamped<rgb::rgb::Rgb<S, T>>>", "sum"): "scalar arm: sum <= 1 branch with max != min, channels clamped to >= 0: sum >= max > 0",
-    ("<hsl::Hsl<S, T> as FromColorUnclamped<rgb::rgb::Rgb<S, T>>>", "d"): "scalar arm: inside `if max != min`, d = max - min",
-    ("<hsl::Hsl<S, T> as FromColorUnclamped<rgb::rgb::Rgb<S, T>>>", "sum.gt(one()).select(from_f64(2.0) - sum, sum)"): "mask arm: lazy_select else-arm of min == max; same argument as the scalar arm",
-    ("<hsv::Hsv<S, T> as FromColorUnclamped<rgb::rgb::Rgb<S, T>>>", "d"): "scalar arm: inside `if max != min`, d = max - min",
+    ("<hsl::Hsl<S, T> as FromColorUnclamped<rgb::rgb::Rgb<S, T>>>", "(+ from_f64(2.0) - max - min)"): "scalar arm: taken when sum > 1 and max != min; sum = max + min < 2 unless max = min = 1 which the max != min test excludes",
+    ("<hsl::Hsl<S, T> as FromColorUnclamped<rgb::rgb::Rgb<S, T>>>", "(+ max + min)"): "scalar arm: sum <= 1 branch with max != min, channels clamped to >= 0: sum >= max > 0",
+    ("<hsl::Hsl<S, T> as FromColorUnclamped<rgb::rgb::Rgb<S, T>>>", "(+ max - min)"): "scalar arm: inside `if max != min`, d = max - min",
+    ("<hsl::Hsl<S, T> as FromColorUnclamped<rgb::rgb::Rgb<S, T>>>", "(+ max + min).gt(one()).select((+ from_f64(2.0) - max - min(blue, min(green, red))), (+ max + min))"): "mask arm: lazy_select else-arm of min == max; same argument as the scalar arm",
+    ("<hsv::Hsv<S, T> as FromColorUnclamped<rgb::rgb::Rgb<S, T>>>", "(+ max - min)"): "scalar arm: inside `if max != min`, d = max - min",
     ("<hsv::Hsv<S, T> as FromColorUnclamped<rgb::rgb::Rgb<S, T>>>", "max"): "scalar arm: inside `if max != min` with channels clamped to >= 0: max > min >= 0",
-    ("<hsv::Hsv<S, T> as FromColorUnclamped<rgb::rgb::Rgb<S, T>>>", "value"): "mask arm: else-arm of chroma == 0; chroma = value - min > 0 and min >= 0 give value > 0",
+    ("<hsv::Hsv<S, T> as FromColorUnclamped<rgb::rgb::Rgb<S, T>>>", "max(blue, max(green, red))"): "mask arm: else-arm of chroma == 0; chroma = value - min > 0 and min >= 0 give value > 0",
     # ---- CIE forms
     ("<lab::Lab<Wp, T> as FromColorUnclamped<xyz::Xyz<Wp, T>>>", "get_xyz().with_white_point()"): "white point tristimulus values are positive literals (C14 checks the table)",
-    ("<luv::Luv<Wp, T> as FromColorUnclamped<xyz::Xyz<Wp, T>>>", "w.x + from_f64(15.0) * w.y + from_f64(3.0) * w.z"): "white point tristimulus values are positive literals",
+    ("<luv::Luv<Wp, T> as FromColorUnclamped<xyz::Xyz<Wp, T>>>", "(+ (from_f64(15.0) * w.y) + (from_f64(3.0) * w.z) + w.x)"): "white point tristimulus values are positive literals",
     ("<luv::Luv<Wp, T> as FromColorUnclamped<xyz::Xyz<Wp, T>>>", "w.y"): "white point luminance is a positive literal",
-    ("<xyz::Xyz<Wp, T> as FromColorUnclamped<luv::Luv<Wp, T>>>", "w.x + from_f64(15.0) * w.y + from_f64(3.0) * w.z"): "white point tristimulus values are positive literals",
-    ("<xyz::Xyz<Wp, T> as FromColorUnclamped<luv::Luv<Wp, T>>>", "from_f64(13.0) * color.l"): "after the early return for l < 1e-5: 13 l > 0",
+    ("<xyz::Xyz<Wp, T> as FromColorUnclamped<luv::Luv<Wp, T>>>", "(+ (from_f64(15.0) * w.y) + (from_f64(3.0) * w.z) + w.x)"): "white point tristimulus values are positive literals",
+    ("<xyz::Xyz<Wp, T> as FromColorUnclamped<luv::Luv<Wp, T>>>", "(color.l * from_f64(13.0))"): "after the early return for l < 1e-5: 13 l > 0",
     # (`/ v_prime` in Xyz<-Luv is NOT listed: v' = v/(13 l) + v_ref is zero for in-range imaginary colours - known finding F9)
-    ("xyz::Xyz::<Wp, T>::normalize", "y"): "documented precondition of the (crate-private) helper: used with non-black colours",
+    ("xyz::Xyz::<Wp, T>::normalize", "self.y"): "documented precondition of the (crate-private) helper: used with non-black colours",
     # ---- Ok spaces (after the early returns for zero chroma / l = 0 / l = 1)
     ("<okhsl::Okhsl<T> as FromColorUnclamped<oklab::Oklab<T>>>", "cs.mid"): "C_mid > 0 for 0 < L < 1 (early return handles L = 0, L = 1, C = 0)",
-    ("<okhsl::Okhsl<T> as FromColorUnclamped<oklab::Oklab<T>>>", "k_1 + k_2 * chroma"): "Moebius denominator: k_1 + (1 - k_1/C_mid) C > 0 for 0 <= C < C_mid",
+    ("<okhsl::Okhsl<T> as FromColorUnclamped<oklab::Oklab<T>>>", "(+ ((- (k_1 / cs.mid) + one()) * chroma) + (cs.zero * mid))"): "Moebius denominator: k_1 + (1 - k_1/C_mid) C > 0 for 0 <= C < C_mid",
     ("<okhsl::Okhsl<T> as FromColorUnclamped<oklab::Oklab<T>>>", "cs.zero"): "C_0 > 0 for 0 < L < 1",
-    ("<okhsl::Okhsl<T> as FromColorUnclamped<oklab::Oklab<T>>>", "cs.max - cs.mid"): "C_max > C_mid = 0.9 k (...) < C_max by construction for 0 < L < 1",
-    ("<okhsl::Okhsl<T> as FromColorUnclamped<oklab::Oklab<T>>>", "k_1 + k_2 * (chroma - k_0)"): "Moebius denominator of the upper piece, positive for C_mid <= C <= C_max",
+    ("<okhsl::Okhsl<T> as FromColorUnclamped<oklab::Oklab<T>>>", "(+ cs.max - cs.mid)"): "C_max > C_mid = 0.9 k (...) < C_max by construction for 0 < L < 1",
+    ("<okhsl::Okhsl<T> as FromColorUnclamped<oklab::Oklab<T>>>", "(+ (((- mid + one()) * (cs.mid * mid_inv).powi(2)) / cs.zero) + ((+ chroma - k_0) * (- (k_1 / (+ cs.max - cs.mid)) + one())))"): "Moebius denominator of the upper piece, positive for C_mid <= C <= C_max",
     ("<oklab::Oklab<T> as FromColorUnclamped<okhsl::Okhsl<T>>>", "cs.mid"): "C_mid > 0 for 0 < L < 1 (early returns handle lightness 0 and 1)",
-    ("<oklab::Oklab<T> as FromColorUnclamped<okhsl::Okhsl<T>>>", "one() - k_2 * t"): "Moebius denominator: 1 - k_2 t with k_2 < 1, 0 <= t < 1",
+    ("<oklab::Oklab<T> as FromColorUnclamped<okhsl::Okhsl<T>>>", "(- (((- mid + s) / (- mid + one())) * (- (k_1 / (+ cs.max - cs.mid)) + one())) + one())"): "upper piece: 1 - k_2 t with k_2 = 1 - k_1/(C_max - C_mid) < 1 and 0 <= t <= 1",
+    ("<oklab::Oklab<T> as FromColorUnclamped<okhsl::Okhsl<T>>>", "(- ((- (k_1 / cs.mid) + one()) * (mid_inv * s)) + one())"): "lower piece: 1 - k_2 t with k_2 = 1 - k_1/C_mid < 1 and 0 <= t = 1.25 s < 1",
     ("<oklab::Oklab<T> as FromColorUnclamped<okhsl::Okhsl<T>>>", "cs.zero"): "C_0 > 0 for 0 < L < 1",
-    ("<oklab::Oklab<T> as FromColorUnclamped<okhsl::Okhsl<T>>>", "cs.max - cs.mid"): "C_max > C_mid for 0 < L < 1",
+    ("<oklab::Oklab<T> as FromColorUnclamped<okhsl::Okhsl<T>>>", "(+ cs.max - cs.mid)"): "C_max > C_mid for 0 < L < 1",
     ("<okhsv::Okhsv<T> as FromColorUnclamped<oklab::Oklab<T>>>", "st_max.s"): "S_max = C_cusp / L_cusp > 0",
-    ("<okhsv::Okhsv<T> as FromColorUnclamped<oklab::Oklab<T>>>", "chroma + lab.l * st_max.t"): "C + L T_max > 0 after the early return for zero chroma",
-    ("<okhsv::Okhsv<T> as FromColorUnclamped<oklab::Oklab<T>>>", "l_v"): "L_v = t L > 0 after the early returns for L = 0",
-    ("<okhsv::Okhsv<T> as FromColorUnclamped<oklab::Oklab<T>>>", "max(max(rgb_scale.red, rgb_scale.green), max(rgb_scale.blue, zero()))"): "max linear-sRGB channel of the hue's brightest colour > 0",
+    ("<okhsv::Okhsv<T> as FromColorUnclamped<oklab::Oklab<T>>>", "(+ (lab.l * st_max.t) + chroma)"): "C + L T_max > 0 after the early return for zero chroma",
+    ("<okhsv::Okhsv<T> as FromColorUnclamped<oklab::Oklab<T>>>", "(lab.l * t)"): "L_v = t L > 0 after the early returns for L = 0",
+    ("<okhsv::Okhsv<T> as FromColorUnclamped<oklab::Oklab<T>>>", "max(max(rgb_scale.blue, zero()), max(rgb_scale.green, rgb_scale.red))"): "max linear-sRGB channel of the hue's brightest colour > 0",
     ("<okhsv::Okhsv<T> as FromColorUnclamped<oklab::Oklab<T>>>", "lightness_scale_factor"): "cbrt of a positive quotient",
-    ("<okhsv::Okhsv<T> as FromColorUnclamped<oklab::Oklab<T>>>", "st_max.t * s_0 + st_max.t * k * c_v"): "T_max S_0 + T_max k C_v > 0 (all factors positive)",
+    ("<okhsv::Okhsv<T> as FromColorUnclamped<oklab::Oklab<T>>>", "(+ ((- (s_0 / st_max.s) + one()) * (chroma * t) * st_max.t) + (from_f64(0.5) * st_max.t))"): "T_max S_0 + T_max k C_v > 0 (all factors positive)",
     ("<oklab::Oklab<T> as FromColorUnclamped<okhsv::Okhsv<T>>>", "cusp.s"): "S_max > 0",
-    ("<oklab::Oklab<T> as FromColorUnclamped<okhsv::Okhsv<T>>>", "s_0 + cusp.t - cusp.t * k * hsv.saturation"): "S_0 + T_max (1 - k s) > 0 for 0 <= s <= 1, k < 1",
-    ("<oklab::Oklab<T> as FromColorUnclamped<okhsv::Okhsv<T>>>", "l_v"): "L_v = 1 - s S_0/(...) in (0, 1]",
-    ("<oklab::Oklab<T> as FromColorUnclamped<okhsv::Okhsv<T>>>", "lightness"): "after the early return for value = 0: L = v L_v > 0",
-    ("<oklab::Oklab<T> as FromColorUnclamped<okhsv::Okhsv<T>>>", "max(max(rgb_scale.red, rgb_scale.green), max(rgb_scale.blue, zero()))"): "max linear-sRGB channel of the hue's brightest colour > 0",
+    ("<oklab::Oklab<T> as FromColorUnclamped<okhsv::Okhsv<T>>>", "(- ((- (s_0 / cusp.s) + one()) * cusp.t * hsv.saturation) + cusp.t + from_f64(0.5))"): "S_0 + T_max (1 - k s) > 0 for 0 <= s <= 1, k < 1",
+    ("<oklab::Oklab<T> as FromColorUnclamped<okhsv::Okhsv<T>>>", "(- ((hsv.saturation * s_0) / (- (cusp.t * hsv.saturation * k) + cusp.t + s_0)) + one())"): "L_v = 1 - s S_0/(...) in (0, 1]",
+    ("<oklab::Oklab<T> as FromColorUnclamped<okhsv::Okhsv<T>>>", "((- ((hsv.saturation * s_0) / (- (cusp.t * hsv.saturation * k) + cusp.t + s_0)) + one()) * hsv.value)"): "after the early return for value = 0: L = v L_v > 0",
+    ("<oklab::Oklab<T> as FromColorUnclamped<okhsv::Okhsv<T>>>", "max(max(rgb_scale.blue, zero()), max(rgb_scale.green, rgb_scale.red))"): "max linear-sRGB channel of the hue's brightest colour > 0",
 }
 
 TABLE.update({
@@ -112,26 +113,26 @@ TABLE.update({
     ("impl Clamp for okhwb::Okhwb<T>>::clamp", "divisor"): "divisor = select(sum > 1, sum, 1): either > 1 or exactly 1",
     ("impl ClampAssign for okhwb::Okhwb<T>>::clamp_assign", "divisor"): "divisor = select(sum > 1, sum, 1): either > 1 or exactly 1",
     ("<ok_utils::ST<T> as std::convert::From<ok_utils::LC<T>>>::from", "lc.lightness"): "cusp lightness = cbrt(1/max rgb) lies strictly between 0 and 1",
-    ("<ok_utils::ST<T> as std::convert::From<ok_utils::LC<T>>>::from", "one() - lc.lightness"): "cusp lightness lies strictly between 0 and 1",
-    ("luv_bounds::BoundaryLine::distance_to_origin", "sqrt(self.slope * self.slope + 1.0)"): "sqrt(m^2 + 1) >= 1",
-    ("luv_bounds::LuvBounds::from_lightness", "bottom"): "zero only for l = 0 on the t = 0 lines; the resulting NaN line is skipped by intersect_length_at_angle (|denom| > 1e-6 is false for NaN), the t = 1 lines give length 0, and Hsluv<-Lchuv tests the bound with is_normal",
-    ("ok_utils::ChromaValues::<T>::from_normalized", "c_a * c_a"): "C_a = 0.4 L > 0: callers return early for L = 0 and L = 1",
-    ("ok_utils::ChromaValues::<T>::from_normalized", "c_b * c_b"): "C_b = 0.8 (1 - L) > 0: callers return early for L = 0 and L = 1",
-    ("ok_utils::ChromaValues::<T>::from_normalized", "c_a * c_a * c_a * c_a"): "C_a = L S_mid > 0 for 0 < L < 1",
-    ("ok_utils::ChromaValues::<T>::from_normalized", "c_b * c_b * c_b * c_b"): "C_b = (1 - L) T_mid > 0 for 0 < L < 1",
-    ("ok_utils::ChromaValues::<T>::from_normalized", "min(lightness * st_max.s, (one() - lightness) * st_max.t)"): "min(L S_max, (1-L) T_max) > 0 for 0 < L < 1",
-    ("ok_utils::ChromaValues::<T>::from_normalized", "one() / (c_a * c_a * c_a * c_a) + one() / (c_b * c_b * c_b * c_b)"): "sum of two positive reciprocals",
-    ("ok_utils::ChromaValues::<T>::from_normalized", "one() / (c_a * c_a) + one() / (c_b * c_b)"): "sum of two positive reciprocals",
-    ("ok_utils::LC::<T>::find_cusp", "max(max(rgb_at_max.red, rgb_at_max.green), rgb_at_max.blue)"): "the brightest colour of a hue has a positive largest channel",
-    ("ok_utils::LC::<T>::max_saturation", "f1.powi(2) - from_f64(0.5) * f * f2"): "Halley denominator f'^2 - f f''/2: f' != 0 at the fitted saturation (the channel crosses zero transversally); published algorithm",
-    ("ok_utils::ST::<T>::mid", "from_f64(1.61320320) - from_f64(0.68124379) * b_"): "published fit: denominator polynomial is positive on the unit circle (a,b)",
-    ("ok_utils::ST::<T>::mid", "from_f64(7.44778970) + from_f64(4.15901240) * b_"): "published fit: denominator polynomial is positive on the unit circle (a,b)",
-    ("ok_utils::find_gamut_intersection", "b1 * b1 - from_f64(0.5) * b * b2"): "Halley denominator (published algorithm); a negative u is replaced by FLT_MAX afterwards",
-    ("ok_utils::find_gamut_intersection", "g1 * g1 - from_f64(0.5) * g * g2"): "Halley denominator (published algorithm)",
-    ("ok_utils::find_gamut_intersection", "r1 * r1 - from_f64(0.5) * r * r2"): "Halley denominator (published algorithm)",
-    ("ok_utils::find_gamut_intersection", "c1 * (cusp.lightness - one()) + cusp.chroma * (l0 - l1)"): "upper-half intersection: called with l0 = l1 = L, c1 = 1: divisor = L_cusp - 1 < 0",
-    ("ok_utils::find_gamut_intersection", "c1 * cusp.lightness + cusp.chroma * (l0 - l1)"): "lower-half intersection: called with l0 = l1 = L, c1 = 1: divisor = L_cusp > 0",
-    ("ok_utils::toe_inv", "k_3 * (l_r + k_2)"): "k_3 (x + 0.03) > 0 for x >= 0",
+    ("<ok_utils::ST<T> as std::convert::From<ok_utils::LC<T>>>::from", "(- lc.lightness + one())"): "cusp lightness lies strictly between 0 and 1",
+    ("luv_bounds::BoundaryLine::distance_to_origin", "sqrt((+ (self.slope * self.slope) + 1.0))"): "sqrt(m^2 + 1) >= 1",
+    ("luv_bounds::LuvBounds::from_lightness", "(+ ((- (126452.0 * index) + (632260.0 * index)) * sub2) + (126452.0 * t))"): "zero only for l = 0 on the t = 0 lines; the resulting NaN line is skipped by intersect_length_at_angle (|denom| > 1e-6 is false for NaN), the t = 1 lines give length 0, and Hsluv<-Lchuv tests the bound with is_normal",
+    ("ok_utils::ChromaValues::<T>::from_normalized", "((from_f64(0.4) * lightness) * (from_f64(0.4) * lightness))"): "C_a = 0.4 L > 0: callers return early for L = 0 and L = 1",
+    ("ok_utils::ChromaValues::<T>::from_normalized", "(((- lightness + one()) * from_f64(0.8)) * ((- lightness + one()) * from_f64(0.8)))"): "C_b = 0.8 (1 - L) > 0: callers return early for L = 0 and L = 1",
+    ("ok_utils::ChromaValues::<T>::from_normalized", "((lightness * st_mid.s) * (lightness * st_mid.s) * (lightness * st_mid.s) * (lightness * st_mid.s))"): "C_a = L S_mid > 0 for 0 < L < 1",
+    ("ok_utils::ChromaValues::<T>::from_normalized", "(((- lightness + one()) * st_mid.t) * ((- lightness + one()) * st_mid.t) * ((- lightness + one()) * st_mid.t) * ((- lightness + one()) * st_mid.t))"): "C_b = (1 - L) T_mid > 0 for 0 < L < 1",
+    ("ok_utils::ChromaValues::<T>::from_normalized", "min(((- lightness + one()) * st_max.t), (lightness * st_max.s))"): "min(L S_max, (1-L) T_max) > 0 for 0 < L < 1",
+    ("ok_utils::ChromaValues::<T>::from_normalized", "(+ (one() / (c_a * c_a * c_a * c_a)) + (one() / (c_b * c_b * c_b * c_b)))"): "sum of two positive reciprocals",
+    ("ok_utils::ChromaValues::<T>::from_normalized", "(+ (one() / (c_a * c_a)) + (one() / (c_b * c_b)))"): "sum of two positive reciprocals",
+    ("ok_utils::LC::<T>::find_cusp", "max(max(rgb_at_max.green, rgb_at_max.red), rgb_at_max.blue)"): "the brightest colour of a hue has a positive largest channel",
+    ("ok_utils::LC::<T>::max_saturation", "(- ((+ (l * wl) + (m * wm) + (s * ws)) * (+ (l_ds2 * wl) + (m_ds2 * wm) + (s_ds2 * ws)) * from_f64(0.5)) + (+ (l_ds * wl) + (m_ds * wm) + (s_ds * ws)).powi(2))"): "Halley denominator f'^2 - f f''/2: f' != 0 at the fitted saturation (the channel crosses zero transversally); published algorithm",
+    ("ok_utils::ST::<T>::mid", "(+ ((+ ((+ ((- (a_ * from_f64(0.14661872)) - (b_ * from_f64(0.45399568)) + from_f64(0.00299215)) * a_) + (b_ * from_f64(0.61223990)) + from_f64(-0.27087943)) * a_) + (b_ * from_f64(0.90148123)) + from_f64(0.40370612)) * a_) - (b_ * from_f64(0.68124379)) + from_f64(1.61320320))"): "published fit: denominator polynomial is positive on the unit circle (a,b)",
+    ("ok_utils::ST::<T>::mid", "(+ ((+ ((+ ((+ (a_ * from_f64(4.69891013)) + (b_ * from_f64(5.38770819)) + from_f64(-4.24894561)) * a_) - (b_ * from_f64(10.02301043)) + from_f64(-2.13704948)) * a_) + (b_ * from_f64(1.75198401)) + from_f64(-2.19557347)) * a_) + (b_ * from_f64(4.15901240)) + from_f64(7.44778970))"): "published fit: denominator polynomial is positive on the unit circle (a,b)",
+    ("ok_utils::find_gamut_intersection", "(- ((+ (-from_f64(0.0041960863) * l) - (from_f64(0.7034186147) * m) + (from_f64(1.7076147010) * s) - one()) * (+ (-from_f64(0.0041960863) * ldt2) - (from_f64(0.7034186147) * mdt2) + (from_f64(1.7076147010) * sdt2)) * from_f64(0.5)) + ((+ (-from_f64(0.0041960863) * ldt) - (from_f64(0.7034186147) * mdt) + (from_f64(1.7076147010) * sdt)) * b1))"): "Halley denominator (published algorithm); a negative u is replaced by FLT_MAX afterwards",
+    ("ok_utils::find_gamut_intersection", "(- ((+ (-from_f64(1.2684380046) * l) - (from_f64(0.3413193965) * s) + (from_f64(2.6097574011) * m) - one()) * (+ (-from_f64(1.2684380046) * ldt2) - (from_f64(0.3413193965) * sdt2) + (from_f64(2.6097574011) * mdt2)) * from_f64(0.5)) + ((+ (-from_f64(1.2684380046) * ldt) - (from_f64(0.3413193965) * sdt) + (from_f64(2.6097574011) * mdt)) * g1))"): "Halley denominator (published algorithm)",
+    ("ok_utils::find_gamut_intersection", "(- ((+ (from_f64(0.2309699292) * s) - (from_f64(3.3077115913) * m) + (from_f64(4.0767416621) * l) - one()) * (+ (from_f64(0.2309699292) * sdt2) - (from_f64(3.3077115913) * mdt2) + (from_f64(4.0767416621) * ldt2)) * from_f64(0.5)) + ((+ (from_f64(0.2309699292) * sdt) - (from_f64(3.3077115913) * mdt) + (from_f64(4.0767416621) * ldt)) * r1))"): "Halley denominator (published algorithm)",
+    ("ok_utils::find_gamut_intersection", "(+ ((+ cusp.lightness - one()) * c1) + ((+ l0 - l1) * cusp.chroma))"): "upper-half intersection: called with l0 = l1 = L, c1 = 1: divisor = L_cusp - 1 < 0",
+    ("ok_utils::find_gamut_intersection", "(+ ((+ l0 - l1) * cusp.chroma) + (c1 * cusp.lightness))"): "lower-half intersection: called with l0 = l1 = L, c1 = 1: divisor = L_cusp > 0",
+    ("ok_utils::toe_inv", "(((+ k_1 + one()) / (+ k_2 + one())) * (+ from_f64(0.03) + l_r))"): "k_3 (x + 0.03) > 0 for x >= 0",
 })
 
 PANIC_ALLOW = {
@@ -250,6 +251,91 @@ def render(e, flow, depth=0):
         return "(%s)" % ", ".join(render(a, flow) for a in e.get("a", []))
     if k == "block" and not e.get("s") and e.get("e"):
         return render(e["e"], flow)
+    return k or "?"
+
+
+def _expandable(e):
+    """Initialisers that are plain arithmetic: safe to look through when keying a divisor."""
+    e = strip(e)
+    k = e.get("k")
+    if k in ("lit", "path", "field"):
+        return True
+    if k in ("bin", "un", "cast"):
+        return True
+    if k == "call" and isinstance(e.get("c"), dict) and e["c"].get("n") in ("from_f64", "from_scalar", "one", "zero", "max", "min"):
+        return True
+    if k == "mcall" and e["n"] in ("clone", "into", "sqrt", "abs", "powi", "max", "min"):
+        return True
+    return False
+
+
+def norm_render(e, flow, depth=0):
+    """Rendering that is invariant under `let` introduction / renaming of arithmetic locals and under reordering of sums and products."""
+    e = strip(e)
+    k = e.get("k")
+    if k == "path" and e["res"].get("k") == "local":
+        b = flow.bind.get(e["res"]["h"]) if depth < 3 else None
+        if b is not None and _expandable(b) and strip(b) is not e:
+            return norm_render(b, flow, depth + 1)
+        return e["res"].get("n") or "?"
+    if k == "path":
+        d = e["res"].get("d")
+        return flow.F.S[d].split("::")[-1] if isinstance(d, int) else "def"
+    if k == "bin" and e.get("op") in ("+", "-"):
+        terms = []
+
+        def collect(x, sign):
+            x = strip(x)
+            if x.get("k") == "path" and x["res"].get("k") == "local":
+                b = flow.bind.get(x["res"]["h"])
+                if b is not None and _expandable(b) and strip(b).get("k") == "bin" and strip(b).get("op") in ("+", "-") and depth < 3:
+                    return collect(b, sign)
+            if x.get("k") == "bin" and x.get("op") in ("+", "-"):
+                collect(x["a"][0], sign)
+                collect(x["a"][1], sign if x["op"] == "+" else -sign)
+            else:
+                terms.append((sign, norm_render(x, flow, depth + 1)))
+        collect(e, 1)
+        terms.sort(key=lambda t: t[1])
+        return "(" + " ".join(("+ " if sg > 0 else "- ") + t for sg, t in terms) + ")"
+    if k == "bin" and e.get("op") == "*":
+        fs = []
+
+        def collect(x):
+            x = strip(x)
+            if x.get("k") == "bin" and x.get("op") == "*":
+                collect(x["a"][0])
+                collect(x["a"][1])
+            else:
+                fs.append(norm_render(x, flow, depth + 1))
+        collect(e)
+        return "(" + " * ".join(sorted(fs)) + ")"
+    if k == "bin":
+        return "(%s %s %s)" % (norm_render(e["a"][0], flow, depth + 1), e.get("op"), norm_render(e["a"][1], flow, depth + 1))
+    if k == "field":
+        return "%s.%s" % (norm_render(e["e"], flow, depth + 1), e["n"])
+    if k == "lit":
+        return str(e["lit"].get("v"))
+    if k == "mcall":
+        if e["n"] in ("clone", "into", "borrow") and not e.get("a"):
+            return norm_render(e["r"], flow, depth + 1)
+        args = [norm_render(a, flow, depth + 1) for a in e.get("a", [])]
+        if e["n"] in ("max", "min"):
+            return "%s(%s)" % (e["n"], ", ".join(sorted([norm_render(e["r"], flow, depth + 1)] + args)))
+        return "%s.%s(%s)" % (norm_render(e["r"], flow, depth + 1), e["n"], ", ".join(args))
+    if k == "call":
+        c = e.get("c")
+        nm = c["n"] if isinstance(c, dict) and "n" in c else "ctor"
+        args = [norm_render(a, flow, depth + 1) for a in e.get("a", [])]
+        if nm in ("max", "min"):
+            args = sorted(args)
+        return "%s(%s)" % (nm, ", ".join(args))
+    if k == "un":
+        return e.get("op", "") + norm_render(e["e"], flow, depth + 1)
+    if k == "cast":
+        return norm_render(e["e"], flow, depth + 1)
+    if k == "block" and not e.get("s") and e.get("e"):
+        return norm_render(e["e"], flow, depth + 1)
     return k or "?"
 
 
@@ -436,9 +522,10 @@ def run(F, rep, tier="quick", extra=None, only=None):
             continue
         key = fn_key(b)
         r = render(div, flow)
+        nr = norm_render(div, flow)
         hit = None
         for (fk, dk) in TABLE:
-            if (key == fk or key.endswith(fk) or fk in key) and (dk == r or (len(dk) > 40 and r.startswith(dk))):
+            if (key == fk or key.endswith(fk) or fk in key) and dk == nr:
                 hit = (fk, dk)
                 break
         if hit:
